@@ -256,7 +256,7 @@ func doFlakeRun(state *core.BuildState, target *core.BuildTarget, run int, runRe
 		results.Duration += testSuite.Duration
 		// Each set of executions is treated as a group
 		// So if a test flakes three times, three executions will be part of one test case.
-		results.Add(testSuite.TestCases...)
+		addFlakeRun(&results, testSuite.TestCases)
 		coverage.Aggregate(cov)
 
 		// If execution succeeded, we can break out of the flake loop
@@ -267,6 +267,33 @@ func doFlakeRun(state *core.BuildState, target *core.BuildTarget, run int, runRe
 	}
 
 	return results, coverage
+}
+
+// addFlakeRun adds the test cases of one more run of a (possibly flaky) test to the results so far.
+// A case is an additional execution of the case with the same name & class from earlier runs; if
+// one run contains several cases with the same name (e.g. go test -count=2) they are different cases
+// and the k'th of them pairs up with the k'th of the earlier ones, never with each other.
+func addFlakeRun(results *core.TestSuite, cases core.TestCases) {
+	seen := map[[2]string]int{}
+	for _, testCase := range cases {
+		key := [2]string{testCase.ClassName, testCase.Name}
+		k := seen[key]
+		seen[key]++
+		merged := false
+		for i := range results.TestCases {
+			if existing := &results.TestCases[i]; existing.ClassName == testCase.ClassName && existing.Name == testCase.Name {
+				if k == 0 {
+					existing.Executions = append(existing.Executions, testCase.Executions...)
+					merged = true
+					break
+				}
+				k--
+			}
+		}
+		if !merged {
+			results.TestCases = append(results.TestCases, testCase)
+		}
+	}
 }
 
 func prepareOnly(state *core.BuildState, label core.BuildLabel, target *core.BuildTarget, runNumber int) {
